@@ -2,6 +2,8 @@
 """Spike: parse rustc -Zunpretty=mir text into Python structures."""
 import re, sys
 
+SIMPLE_CONSTS = {}
+
 class Func:
     __slots__ = ('name', 'params', 'ret', 'locals', 'blocks', 'raw_header', 'argc')
     def __init__(self):
@@ -307,6 +309,11 @@ def parse_file(path, want=None):
                         funcs.setdefault(name, fn)
                 else:
                     cur = None
+            i += 1; continue
+        if line.startswith('const ') and line.rstrip().endswith(';') and ' = const ' in line:
+            m = re.match(r'^const (.*?): (.*?) = const (.*);$', line.rstrip())
+            if m:
+                SIMPLE_CONSTS[m.group(1)] = m.group(3)
             i += 1; continue
         if line.startswith('const ') and line.rstrip().endswith('= {'):
             m = re.match(r'^const (.*?): (.*) = \{$', line.rstrip())
